@@ -36,6 +36,18 @@ def materialize(case):
     for k, v in case.get("off_over", {}).items():
         if int(k) < n:
             off[int(k)] = v
+    for i, j, kind in case.get("related", []):
+        if i < n and j < n and i != j:
+            if kind in ("off_neg", "both_neg"):
+                off[j] = N - off[i]
+            if kind == "off_same":
+                off[j] = off[i]
+            if kind in ("on_neg", "both_neg"):
+                on[j] = N - on[i]
+            if kind == "on_same":
+                on[j] = on[i]
+            if kind == "swap_roles":
+                on[j], off[j] = off[i], on[i]
     return on, off, case["w_sk"]
 
 
@@ -96,6 +108,15 @@ def keylist_case(draw, nst=n_keys_st, min_n=0):
     if n and draw(st.integers(0, 3)) == 0:
         # includes offline_i == -W (the sum offline_i + W is infinity) and duplicates of W
         case["off_over"] = {str(draw(st.integers(0, n - 1))): draw(st.one_of(gens.seckey_valid, st.just(N - case["w_sk"]), st.just(case["w_sk"])))}
+    if n >= 2 and draw(st.integers(0, 2)) == 0:
+        # RELATED entries: entry j gets the same / the negated offline or online key of entry i (consecutive or not), so list
+        # entries share an x coordinate or are equal: ring keys must still be derived per entry
+        rel = []
+        for _ in range(draw(st.integers(1, 3))):
+            i = draw(st.integers(0, n - 1))
+            j = draw(st.one_of(st.just(min(n - 1, i + 1)), st.just(max(0, i - 1)), st.integers(0, n - 1)))
+            rel.append([i, j, draw(st.sampled_from(["off_neg", "off_same", "on_neg", "on_same", "both_neg", "swap_roles"]))])
+        case["related"] = rel
     return case
 
 
@@ -111,6 +132,11 @@ def run_sign(env, case):
     n, idx = case["n"], case["idx"]
     on_sk, off_sk, w_sk = materialize(case)
     classes = ["n=%s" % (n if n <= 8 else ("big" if n < 254 else n))]
+    for i, j, kind in case.get("related", []):
+        if i < n and j < n and i != j:
+            classes.append("related:" + kind)
+            if abs(i - j) == 1:
+                classes.append("related_consecutive")
     lib.reset()
     on_arr, on_pts = pk_array(env, on_sk)
     off_arr, off_pts = pk_array(env, off_sk)
@@ -360,7 +386,7 @@ def run_parse(env, case):
 
 
 TESTS = [
-    Test("sign_verify", sign_case, run_sign, quick=320, thorough=12000, must_cover=["n=0", "n=1", "n=255", "ref_checked"]),
+    Test("sign_verify", sign_case, run_sign, quick=320, thorough=12000, must_cover=["n=0", "n=1", "n=255", "ref_checked", "related:off_neg", "related:off_same", "related_consecutive"]),
     Test("verify_strings", string_case, run_string, quick=900, thorough=40000,
          must_cover=["base:forge_hash", "empty_list", "accept", "reject", "s_plus_n_twin", "ref_prover_ok", "twin_of_valid_rejected"]),
     Test("parse", parse_case, run_parse, quick=3000, thorough=60000, must_cover=["accept", "reject"]),
